@@ -553,6 +553,7 @@ impl Read for Shared<'_> {
 }
 
 pub struct LObs {
+    pub continued_after_error: usize,
     pub len_errors: usize,
     pub reads_ok: usize,
     pub io_errors: usize,
@@ -576,6 +577,7 @@ pub fn check_limited(
         etherparse::err::Layer::Ipv6Header,
     );
     let mut obs = LObs {
+        continued_after_error: 0,
         len_errors: 0,
         reads_ok: 0,
         io_errors: 0,
@@ -586,6 +588,7 @@ pub fn check_limited(
     let mut max_len = limit;
     let mut read_len = 0usize;
     let mut pos = 0usize;
+    let mut fault_accounted = false;
     for (i, op) in ops.iter().enumerate() {
         match op {
             LOp::Layer => {
@@ -637,18 +640,32 @@ pub fn check_limited(
                             obs.reads_ok += 1;
                         }
                         Err(E::Io(_)) => {
-                            // stream ended or hard fault: position and budget
-                            // are unspecified from here on (read_exact contract)
                             obs.io_errors += 1;
                             let fired = inner.borrow().fault_fired;
                             let natural_eof = pos + n > data.len();
-                            if !fired && !natural_eof {
+                            if (!fired || fault_accounted) && !natural_eof {
                                 return fail(
                                     "benign-transfer-failed",
                                     format!("LimitedReader(limit {limit}): op {i} failed without a fault or end of stream"),
                                 );
                             }
                             obs.fault_fired = fired;
+                            // A one-shot error under whole transfers fails a
+                            // call that transferred nothing: stream position
+                            // and byte budget are intact, so the sequence - and
+                            // the limit - continue to be checked. In every
+                            // other case (end of stream, error after a partial
+                            // transfer) position and budget are unspecified
+                            // from here on (read_exact contract).
+                            let intact = fired
+                                && !natural_eof
+                                && plan.chunking == Chunking::Whole
+                                && matches!(plan.fault, Some((_, HardFault::Error)));
+                            if intact {
+                                fault_accounted = true;
+                                obs.continued_after_error += 1;
+                                continue;
+                            }
                             return Ok(obs);
                         }
                         Err(E::Len(e)) => {
